@@ -26,6 +26,8 @@ CHECKS["C15"] = {
         {"pkg": "internal__common", "run": "TestVF_C15_Expansion", "rapid": {"quick": 4000, "thorough": 50000},
          "shards": {"quick": 1, "thorough": 4}},
         {"pkg": "internal__common", "run": "TestVF_C15_AttrHash", "rapid": {"quick": 3000, "thorough": 50000}},
+        {"pkg": "root", "run": "TestVF_C15_E2E", "rapid": {"quick": 60, "thorough": 600}, "shards": {"quick": 4, "thorough": 16}},
+        {"pkg": "internal__common", "fuzz": "FuzzVF_C15", "run": "FuzzVF_C15", "tiers": ["thorough"], "seconds": {"thorough": 120}, "workers": 8},
     ],
 }
 
@@ -190,6 +192,8 @@ CHECKS["C10"] = {
         {"pkg": "revocation", "run": "TestVF_C10_Double", "rapid": {"quick": 400, "thorough": 3000}, "shards": {"quick": 2, "thorough": 16}},
         {"pkg": "revocation", "run": "TestVF_C10_HashEqual", "rapid": {"quick": 300, "thorough": 3000}},
         {"pkg": "revocation", "run": "TestVF_C10_Prepend", "shards": {"quick": 4, "thorough": 16}},
+        {"pkg": "revocation", "fuzz": "FuzzVF_C10_UpdateJSON", "run": "FuzzVF_C10_UpdateJSON", "tiers": ["thorough"], "seconds": {"thorough": 150}, "workers": 8},
+        {"pkg": "revocation", "fuzz": "FuzzVF_C10_UpdateCBOR", "run": "FuzzVF_C10_UpdateCBOR", "tiers": ["thorough"], "seconds": {"thorough": 150}, "workers": 8},
     ],
 }
 
